@@ -230,3 +230,41 @@ func %s(t *testing.T) {
 	msg := "replayed with " + file + " (go test -overlay):\n" + keep
 	return file, confirmed, msg
 }
+
+// runCanary runs a canary test (a Go test file whose first line is "// path: <rel path in the repo>")
+// against the repository with go test -overlay and reports whether the documented defect still shows.
+func runCanary(repo, file string) string {
+	b, err := os.ReadFile(file)
+	if err != nil {
+		return "canary file missing"
+	}
+	first := strings.SplitN(string(b), "\n", 2)[0]
+	rel := strings.TrimSpace(strings.TrimPrefix(strings.TrimSpace(strings.TrimPrefix(first, "//")), "path:"))
+	if rel == "" || strings.Contains(rel, " ") {
+		return "canary file has no path line"
+	}
+	ov, err := os.CreateTemp("", "canary*.json")
+	if err != nil {
+		return err.Error()
+	}
+	fmt.Fprintf(ov, `{"Replace":{"%s/%s":"%s"}}`, repo, rel, file)
+	ov.Close()
+	defer os.Remove(ov.Name())
+	cmd := exec.Command("go", "test", "-overlay", ov.Name(), "-vet=off", "-count=1", "-timeout", "120s", "-run", "TestCanary", "./"+filepath.Dir(rel)+"/")
+	cmd.Dir = repo
+	cmd.Env = append(os.Environ(), "GOFLAGS=-mod=mod", "GOPROXY=off", "GOSUMDB=off", "GOTOOLCHAIN=local")
+	out, _ := cmd.CombinedOutput()
+	txt := string(out)
+	switch {
+	case strings.Contains(txt, "--- FAIL: TestCanary"):
+		for _, l := range strings.Split(txt, "\n") {
+			if strings.Contains(l, "_test.go:") {
+				return "fails on the real code (defect reproduced): " + strings.TrimSpace(l)
+			}
+		}
+		return "fails on the real code (defect reproduced)"
+	case strings.Contains(txt, "\nok ") || strings.HasPrefix(txt, "ok "):
+		return "passes (the documented history no longer shows the defect)"
+	}
+	return "could not be run: " + truncate(txt, 300)
+}
